@@ -88,7 +88,7 @@ def expectation(table, z, x, y):
     """('exact'|'range', value or (lo,hi)) for query (io=x, vi=y), coordinates clamped to the table.
     The vi rows may be listed in any order (real saved systems list them descending): sort them first."""
     order = sorted(range(len(table["vi"])), key=lambda i: table["vi"][i])
-    io, vi, Z = table["io"], [table["vi"][i] for i in order], [table[z][i] for i in order]
+    io, vi, Z = table["io"], [table["vi"][i] for i in order], [[abs(v) for v in table[z][i]] for i in order]   # tabulated values are magnitudes
     cx = min(max(x, io[0]), io[-1])
     if len(vi) == 1:
         return "exact", lin(cx, io, Z[0])
@@ -148,6 +148,15 @@ def tables(tier, z):
         out.append({"vi": [10, 20], "io": [1, 3], z: [[0, 1], [1, 2]]})
     if z == "eff":
         out.append({"vi": [24], "io": [1, 2, 4], z: [[1, 1, 1]]})
+    if z in ("vdrop", "ig", "eff"):   # integer io axis next to NON-integer vi rows
+        a, b, c = vals
+        out.append({"vi": [3.3, 12.5], "io": [1, 2, 5], z: [[a, b, c], [c, a, b]]})
+        out.append({"vi": [12.5, 3.3], "io": [1, 2, 5], z: [[c, a, b], [a, b, c]]})
+    if z == "vdrop":   # drops written with a negative sign are magnitudes (tables as well as constants)
+        a, b, c = vals
+        out.append({"vi": [3.3], "io": [0.1, 0.5], z: [[-a, -c]]})
+        out.append({"vi": [3.3], "io": [0.05, 0.1, 0.4, 1.0], z: [[-b, -b, -b, -b]]})
+        out.append({"vi": [2.5, 5.0], "io": [0.0, 0.2, 0.9], z: [[-a, -b, -c], [-b, -c, -a]]})
     if z == "ig":  # micro-amp scale io axes (absolute epsilons in the clamping code would show here)
         for io in ([1e-6, 2e-6, 4e-6], [1e-7, 3e-7, 5e-7]):
             # 1-D only: a 2-D table with a micro-amp io axis next to a volt-scale vi axis is not "well-conditioned" in the sense of the
@@ -274,7 +283,7 @@ def check_case(case):
         yin, yout = [vi[0], vi[0] * 0.5, vi[0] * 2], []
     if case["tier"] == "quick":
         yout = yout[:1] + yout[-1:]
-    flat = [v for row in table[z] for v in row]
+    flat = [abs(v) for row in table[z] for v in row]
     const = len(set(flat)) == 1
     for x in xin + xout:
         if x == 0.0 and carrier in ("conv-eff", "rect-ig"):
@@ -310,7 +319,7 @@ def check_case(case):
                     res.nontrivial = 1
                 res.classes.add("%s:%s" % ("1D" if len(vi) == 1 else "2D", where))
                 if const:
-                    c2, _ = probe(carrier, flat[0], sg * y, x)
+                    c2, _ = probe(carrier, table[z][0][0], sg * y, x)   # the constant as written (sign included)
                     if c2 is None or abs(c2 - val) > tol:
                         res.v(("C10.constant-table", carrier), "io=%r vi=%r: table %r constant %r" % (x, sg * y, val, c2))
                     res.stats["constant_equiv"] += 1
